@@ -1938,7 +1938,7 @@ def apply_callable(ctx, f, args, dest_ty=None):
         return ex.call_sub_states(st, body, [first] + list(args))
     if isinstance(fv, Opaque) and not isinstance(f, Opaque):
         f = fv          # a function item held behind a reference
-    if isinstance(f, Opaque) and isinstance(f.tag, str) and re.search(r'::[A-Za-z_0-9]+$', f.tag.strip()):
+    if isinstance(f, Opaque) and isinstance(f.tag, str) and re.search(r'(?:^|::)[A-Za-z_][A-Za-z_0-9]*(?:::<.*>)?$', f.tag.strip(), re.S) and not f.tag.strip().startswith(('hv_', 'cfg_')):
         callee = f.tag.strip()
         c2 = CallCtx(ex, st, ctx.fr, callee, list(args), dest_ty)
         for rx, fnc in list(ex.overrides) + list(ex.contracts):
